@@ -117,7 +117,7 @@ static void runComb(vh::Rng &rng, const std::function<void(Ctx &)> &build,
 // ---------------------------------------------------------------- sequential: counters
 struct SeqIn { bool inc, dec, ld; std::string lv, end; };
 
-static void runCounter(vh::Rng &rng, size_t cycles, size_t lvW, size_t endW,
+static void runCounter(vh::Rng &rng, size_t cycles, uint64_t loadLim, size_t endW,
 					   const std::function<std::unique_ptr<scl::Counter>(UInt &endSig)> &mk, bool useOps, bool upDown, size_t udW, size_t udReset,
 					   const std::string &endVal) {
 	try {
@@ -178,7 +178,7 @@ static void runCounter(vh::Rng &rng, size_t cycles, size_t lvW, size_t endW,
 			std::string lv = "";
 			if (plv && valueW) {
 				// load values: mostly legal (<= end-1 is not enforced by the hardware; the driver's spec only needs a value)
-				lv = genBits(rng, valueW);
+				lv = (loadLim && !rng.chance(1, 10)) ? binOf(rng.below(loadLim), valueW) : genBits(rng, valueW);
 			}
 			s.set(pinc.node(), i ? "1" : "0"); s.set(pdec.node(), d ? "1" : "0"); s.set(pld.node(), l ? "1" : "0");
 			if (plv && valueW) s.set(plv, lv);
@@ -204,7 +204,7 @@ static size_t genWidth(vh::Rng &rng, size_t round, size_t lo, size_t hi) {
 }
 
 static const char *PRIMS[] = {
-	"bitcount", "decoder", "encoder", "encdec", "pe", "petree", "clz", "therm", "thermw", "thermback", "thermrt",
+	"bitcount", "decoder", "encoder", "encdec", "pe", "petree1", "petree2", "petree3", "clz", "therm", "thermw", "thermback", "thermrt",
 	"grayenc", "graydec", "grayrt", "minu", "maxu", "mins", "maxs", "bpt", "divu", "divs", "csa", "csadd", "addc",
 	"ctr_end", "ctr_w", "ctr_uend", "ctr_auto", "updown", "crc", "crcwk", "crcgen", "bad",
 };
@@ -225,6 +225,8 @@ int main(int argc, char **argv) {
 		if (!only.empty()) { for (size_t k = 0; k < NPRIMS; k++) if (only == PRIMS[k]) pi = k; }
 		std::string prim = PRIMS[pi];
 		size_t round = rounds[pi]++;
+		size_t bpsBase = 0;
+		if (prim.rfind("petree", 0) == 0) { bpsBase = prim[6] - '0'; prim = "petree"; }
 		size_t small = std::min<size_t>(maxw, 10);  // primitives whose output has 2^w bits
 		o << "case " << id << ' ' << prim;
 		if (prim == "bitcount") {
@@ -246,7 +248,7 @@ int main(int argc, char **argv) {
 			size_t n = genWidth(rng, round, 0, maxw); o << ' ' << n << '\n';
 			runComb(rng, [&](Ctx &c) { UInt a = c.in(n); auto r = scl::priorityEncoder(a); c.out(*r); c.out(valid(r)); });
 		} else if (prim == "petree") {
-			size_t n = genWidth(rng, round / 3, 0, maxw); size_t bps = 1 + (round % 3) + (rng.chance(1, 8) ? rng.below(3) : 0);
+			size_t n = genWidth(rng, round, 0, maxw); size_t bps = bpsBase + (rng.chance(1, 8) ? rng.below(3) : 0);
 			size_t stepBits = 1ull << bps;
 			o << ' ' << n << ' ' << bps << ' ' << utils::nextPow2((n + stepBits - 1) / stepBits) << '\n';
 			runComb(rng, [&](Ctx &c) { UInt a = c.in(n); auto r = scl::priorityEncoderTree(a, false, bps); c.out(*r); c.out(valid(r)); });
@@ -324,7 +326,7 @@ int main(int argc, char **argv) {
 			size_t reset = rng.chance(1, 2) ? 0 : rng.below(end_);
 			bool ops = prim == "ctr_end";
 			o << ' ' << end_ << ' ' << reset << '\n';
-			runCounter(rng, std::min<size_t>(4 * end_ + 40, 300), 0, 0, [&](UInt &) { return std::make_unique<scl::Counter>(end_, reset); }, ops, false, 0, 0, "");
+			runCounter(rng, std::min<size_t>(4 * end_ + 40, 300), end_, 0, [&](UInt &) { return std::make_unique<scl::Counter>(end_, reset); }, ops, false, 0, 0, "");
 		} else if (prim == "ctr_w") {
 			size_t w = genWidth(rng, round, 0, std::min<size_t>(maxw, 60));
 			size_t reset = (rng.chance(1, 2) || w == 0) ? 0 : rng.below(1ull << std::min<size_t>(w, 62));
@@ -338,7 +340,7 @@ int main(int argc, char **argv) {
 			uint64_t lim = endv ? endv : (1ull << std::min<size_t>(w, 6));
 			size_t reset = rng.chance(1, 2) ? 0 : rng.below(lim);
 			o << ' ' << w << ' ' << reset << '\n';
-			runCounter(rng, std::min<size_t>(4 * lim + 40, 300), 0, w, [&](UInt &e) { return std::make_unique<scl::Counter>(e, reset); }, true, false, 0, 0, binOf(endv, w));
+			runCounter(rng, std::min<size_t>(4 * lim + 40, 300), endv, w, [&](UInt &e) { return std::make_unique<scl::Counter>(e, reset); }, true, false, 0, 0, binOf(endv, w));
 		} else if (prim == "updown") {
 			size_t w = genWidth(rng, round, 1, std::min<size_t>(maxw, 60));
 			size_t reset = rng.chance(1, 2) ? 0 : rng.below(1ull << std::min<size_t>(w, 62));
